@@ -71,7 +71,7 @@ fn base(kind: &str) -> &str {
     kind.split('.').next().unwrap_or(kind)
 }
 
-const NF: usize = 5;
+const NF: usize = 8;
 const NB: usize = 3;
 const NQ: usize = 3;
 const NC: usize = 2;
@@ -645,6 +645,11 @@ pub fn execute(plan: &Plan, ctx: &mut Ctx) {
             if e1 > 0 && e2 > 0 {
                 ctx.count("reach.two_different_errors");
             }
+            if matches!(base(&spec.kind), "sum" | "prod") && spec.ins.iter().all(|n| n.starts_with('f')) {
+                let pat: i64 = ins.iter().enumerate().map(|(j, o)| if o.is_some() { 1 << j } else { 0 }).sum();
+                ctx.cell("C16.nary", &[(base(&spec.kind) == "sum") as i64, ins.len() as i64, pat]);
+                ctx.count("reach.nary_pattern_evaluated");
+            }
             if matches!(base(&spec.kind), "sum" | "prod") && ins.len() >= 3 && ins[0] == Out::None && ins.iter().any(|o| o.is_some()) {
                 ctx.count("reach.nary_leading_absent");
             }
@@ -897,6 +902,34 @@ pub fn gen_c02(prop: &str, tier: Tier, rng: &mut Rng, seed: u64, run: u64) -> Pl
         if rng.chance(0.2) {
             plan.push("RR", &[]);
         }
+    }
+    plan
+}
+
+/// C16(a): one n-ary sum or product of arity N = 1..8 over distinct leaves; every step
+/// re-scripts all N leaves with an absent/present pattern. Patterns are enumerated by the run
+/// index so that all 2^N are reached, values are seeded.
+pub fn gen_c16(prop: &str, tier: Tier, rng: &mut Rng, seed: u64, run: u64) -> Plan {
+    let mut plan = Plan::new("comb", prop, seed, run);
+    let n = 1 + (run % 8) as usize;
+    let kind = if (run / 8) % 2 == 0 { "sum.f" } else { "prod.f" };
+    let ins: Vec<String> = (0..n).map(|i| format!("f{}", i)).collect();
+    plan.sets("nodes", &nodes_text(&[NodeSpec { kind: kind.into(), ins, clock: 0, param: 0 }]));
+    plan.sets("equiv", "");
+    let steps = if tier == Tier::Quick { 4 } else { 8 };
+    let base_pat = (run / 16) * steps as u64;
+    let mut t = rng.range(-1_000_000, 1_000_000);
+    for s in 0..steps {
+        let pat = (base_pat + s as u64) % (1u64 << n);
+        for i in 0..n {
+            t += rng.range(0, 3);
+            if pat >> i & 1 == 1 {
+                plan.push("LF", &[i as i64, t, fb(rng.range(1, 9) as f32)]);
+            } else {
+                plan.push("LFN", &[i as i64]);
+            }
+        }
+        plan.push("RR", &[]);
     }
     plan
 }
